@@ -223,6 +223,8 @@ class Component( ComponentLevel7 ):
     # the value/method nets.
     connection_pairs = []
     for (x, y) in provided_connections:
+      if isinstance( x, str ):
+        x = eval(x) # both ends belong to the new component
       connection_pairs.append( x )
       connection_pairs.append( eval(y) )
       if not top._dsl._has_pending_value_connections and isinstance( x, Signal ):
@@ -391,6 +393,7 @@ class Component( ComponentLevel7 ):
         parent._dsl.func_calls[func] -= to_save
 
       saved_connections = []
+      saved_loopbacks   = set()
 
       for x in removed_connectables:
         # Clean up all_adjancency at top
@@ -411,6 +414,12 @@ class Component( ComponentLevel7 ):
             # other must be in the dict
             if other not in removed_connectables:
               parent._dsl.adjacency[other].remove( x )
+            elif (id(other), id(x)) not in saved_loopbacks:
+              # A connection the PARENT made between two ports of the
+              # removed component: both ends disappear, so it has to be
+              # saved by name
+              saved_loopbacks.add( (id(x), id(other)) )
+              saved_connections.append( ("top"+repr(other)[1:], "top"+repr(x)[1:]) )
           del parent._dsl.adjacency[x]
 
       for x in removed_components:
